@@ -194,6 +194,16 @@ MatrixCtx(schi, n) ==
 MatrixCtxs(schi) == [n \in 1..NM |-> MatrixCtx(schi, n)]
 AllMatrixCtxs == FlatSeq([schi \in 1..4 |-> MatrixCtxs(schi)])
 
+(* one field compared twice in one chain, with two literals of the pool that denote the SAME value in different   *)
+(* spellings (decimal / hex / octal; quoted / raw / hex pairs) or different values: f == L1 o f == L2 and            *)
+(* f == L1 o f != L2 for o in and / or / xor.  What a literal denotes, not how it is written, decides the answer.    *)
+Lop(v) == [k |-> "lop", v |-> v, a |-> 0]
+PoolPairs(pool) == {<<p, q>> \in (1..Len(pool)) \X (1..Len(pool)) : p # q /\ (pool[p].v = pool[q].v \/ q = p + 1)}
+TwiceOver(name, pool) ==
+  {<<Id(name), [k |-> "ord", v |-> "eq", a |-> 0], pool[pq[1]], Lop(o), Id(name), [k |-> "ord", v |-> r, a |-> 1], pool[pq[2]]>> :
+      pq \in PoolPairs(pool), o \in {"and", "or", "xor"}, r \in {"eq", "ne"}}
+SameFieldTwice == TwiceOver("i", IntPool) \cup TwiceOver("s", BytesPool)
+
 MatrixCases ==
   {<<Id("i"), [k |-> "ord", v |-> Ords[o], a |-> a], IntPool[p]>> :
       o \in 1..6, a \in 0..1, p \in 1..Len(IntPool)}
@@ -203,6 +213,8 @@ MatrixCases ==
   \cup {<<Id("ip"), [k |-> "ord", v |-> Ords[o], a |-> a], IpPool[p]>> :
       o \in 1..6, a \in 0..1, p \in 1..Len(IpPool)}
   \cup {<<Id("b1")>>, <<[k |-> "not", a |-> 0], Id("b1")>>, <<[k |-> "not", a |-> 1], Id("b2")>>}
+  \cup SameFieldTwice
+
 
 ----------------------------------------------------------------------------
 Init == ws = <<>> /\ done = FALSE
